@@ -58,6 +58,11 @@ impl SwiftField for Field57A {
         }
 
         let bic = parse_bic(lines[bic_line_idx])?;
+        if lines.len() > bic_line_idx + 1 {
+            return Err(ParseError::InvalidFormat {
+                message: "Field 57A has no line after the BIC".to_string(),
+            });
+        }
 
         Ok(Field57A {
             party_identifier,
